@@ -593,7 +593,7 @@ def run(tier, seed):
     extra = ("Definition kws : list str := %s.\n"
              "Definition chk (c : rcase) : bool :=\n"
              "  let comp := str_eqb (rc_tag c) %s in\n"
-             "  match rc_out c, run_tag kws (rc_tag c) (rc_allowed c) (rc_env c) (rc_text c) with\n"
+             "  match rc_out c, run_tag kws (rc_tag c) (rc_allowed c) (ev_of_env (rc_env c)) (rc_text c) with\n"
              "  | RGot a k f cl, ROk (_, _, f', cl') =>\n"
              "      check_run kws (mkrcase (rc_tag c) (rc_allowed c) (rc_env c) (rc_text c) (RGot a k (if comp then f' else f) (if comp then cl else cl')))\n"
              "  | _, _ => check_run kws c end.\n" % (kw, cstr("component")))
